@@ -83,6 +83,7 @@ func (fr *frame) call(c *ssa.CallCommon, site *ssa.Call, st *State) TV {
 	}
 	// ---- inline ----
 	if callee != nil && callee.Blocks != nil && fr.canInline(callee, cl != nil) {
+		fr.curSite = site
 		return fr.inline(callee, cl, args, resT, st)
 	}
 	// ---- opaque ----
@@ -193,6 +194,10 @@ func (fr *frame) canInline(callee *ssa.Function, isClosure bool) bool {
 	if !inRepo {
 		return false
 	}
+	// a helper extracted from the function under contract is part of it
+	if (fr.isTop || fr.transparent) && !isClosure && fr.s.isNewHelper(callee) {
+		return true
+	}
 	if fc := fr.s.P.contractFor(FuncKey(callee)); fc != nil && fc.Inline {
 		return true
 	}
@@ -216,6 +221,18 @@ func (fr *frame) inline(callee *ssa.Function, cl *closure, args []TV, resT types
 	nf := s.newFrame(callee, fr.depth+1)
 	nf.env0 = fr.env0
 	nf.parent = fr
+	if cl == nil && (fr.isTop || fr.transparent) && fr.curSite != nil && s.isNewHelper(callee) {
+		nf.transparent = true
+		nf.site = fr.curSite
+		before := 0
+		for _, l := range astLoopsOf(fr.fn) {
+			if l.Pos() < nf.site.Pos() {
+				before++
+			}
+		}
+		nf.ordBase = fr.ordBase + before + s.helperLoopsBefore(fr.fn, nf.site.Pos())
+		s.note("%s: %s did not exist when the contract names were recorded and has no contract: verified as part of the calling function (its loops and calls numbered at the call site)", FuncKey(s.Top), FuncKey(callee))
+	}
 	for i, p := range callee.Params {
 		if i < len(args) {
 			a := args[i]
@@ -297,6 +314,9 @@ func resultNames(sig *types.Signature) []string {
 // bindCallEnv builds the environment of a contract instantiated with actual arguments.
 func (s *Sym) bindCallEnv(fc *FuncContract, callee *ssa.Function, sig *types.Signature, invoke bool, args []TV, pkg *types.Package) *Env {
 	env := s.newEnv(pkg)
+	if callee != nil {
+		env.alias = s.P.aliasFor(callee)
+	}
 	names := paramNames(callee, sig, invoke)
 	hasRecv := invoke || (sig != nil && sig.Recv() != nil)
 	for i, a := range args {
@@ -713,6 +733,14 @@ func (s *Sym) calleeKeyOf(c *ssa.CallCommon) string {
 // callOrdinal: position (1-based, source order) of a call among the calls of the same
 // callee in its function.
 func (fr *frame) callOrdinal(site *ssa.Call, callee string) int {
+	if fr.isTop || fr.transparent {
+		// calls inside helpers extracted from the function count at the helper's call site
+		n := 1 + fr.s.callCount(fr.fn, callee, site.Pos(), 0)
+		for f := fr; f.transparent && f.parent != nil && f.site != nil; f = f.parent {
+			n += fr.s.callCount(f.parent.fn, callee, f.site.Pos(), 0)
+		}
+		return n
+	}
 	n := 1
 	for _, b := range site.Parent().Blocks {
 		for _, in := range b.Instrs {
@@ -764,24 +792,10 @@ func (fr *frame) atAsserts(key string, site *ssa.Call, args []TV, c *ssa.CallCom
 			}
 		}
 		blk := site.Block()
+		env.localFirst = fr.transparent
 		env.local = func(name string) (TV, bool) {
-			// parameters and captured variables of an inlined closure
-			if !fr.isTop {
-				for _, p := range fr.fn.Params {
-					if p.Name() == name {
-						return fr.val(p, st), true
-					}
-				}
-				for _, fv := range fr.fn.FreeVars {
-					if fv.Name() == name {
-						if l, ok := fr.locs[fv]; ok {
-							return fr.load(st, l), true
-						}
-						return fr.val(fv, st), true
-					}
-				}
-			}
-			return fr.lookupLocalBefore(name, blk, site, st)
+			// parameters and captured variables of an inlined closure / helper first
+			return fr.resolveName(name, blk, site, st)
 		}
 		// a source variable the assertion names but that has no value yet at this call
 		// (the call precedes its assignment): the assertion cannot hold at this site
